@@ -1,6 +1,6 @@
 # executed by tools_manifest.py
 PENDING.update({k: 'check not built yet in this commit (claimed in DESIGN.md section 4; will move to checks when its machinery lands)'
-                for k in ['C01', 'C10', 'C11', 'C12', 'C17']})
+                for k in ['C10', 'C11', 'C12', 'C17']})
 
 check('C09', 'fault_enumeration',
       'For every sampled experiment configuration the complete single-crash space (after every mutating file-system effect x every '
@@ -57,3 +57,14 @@ check('C13', 'exploration',
       'Sampling over datasets, seeds and histories; restart is modelled as a fresh sampler object on the same data.',
       'deterministic simulation: seeded history machine with restarts and injected global-RNG interference; first-observation table as the reference model',
       'DESIGN.md 4 (C13)')
+
+check('C01', 'exploration',
+      'Seeded simulation of federated deployments against the real federated_averaging: per-round scheduler events (cohort, arrival '
+      'order, backend jit/debug/pmap(1..8), client and whole-cohort dropout, returning clients) over multi-round histories with '
+      'state carry-over, swarm over optimizers and batch hyper-parameters (including seed=None through an entropy seam, with the '
+      'consumed batch stream recorded). Oracle: refinement against a reference model re-based every round - closed-form NumPy '
+      'gradients, plain fold of optimizer steps, float64 weighted mean with the zero-weight convention, server optimizer step - plus '
+      'diagnostics, zero-weight and order/backend-independence checks.',
+      'Optimizer objects are trusted black boxes in the reference; float tolerances rtol 1e-4; (num_epochs=None, empty client) excluded.',
+      'deterministic simulation of a federated deployment (seeded cohort/order/backend/dropout schedule) with step-by-step refinement against an executable reference model',
+      'DESIGN.md 2.5, 4 (C01)')
